@@ -12,6 +12,10 @@ try:
 except Exception:
     pass
 CLI_TIMEOUT_S = int(os.environ.get("PYVC_CLI_TIMEOUT_S", "8"))
+# the budget of a query is counted in z3 resource units (deterministic: a verdict does not depend on how busy the
+# machine is); ~1.2e6 units per second on the reference machine.  The wall-clock timeout is a safety net only.
+RLIMIT_PER_MS = int(os.environ.get("PYVC_RLIMIT_PER_MS", "1200"))
+WALL_FACTOR = 5
 
 
 def delambda(fmls):
@@ -91,7 +95,9 @@ def check(axioms, pc, goal, want_model=True, timeout_ms=None):
             if len(sub) >= len(pc):
                 break
             s = z3.Solver()
-            s.set("timeout", min(3000, timeout_ms or Z3_TIMEOUT_MS))
+            pre_ms = min(3000, timeout_ms or Z3_TIMEOUT_MS)
+            s.set("rlimit", pre_ms * RLIMIT_PER_MS)
+            s.set("timeout", pre_ms * WALL_FACTOR)
             for a in axioms:
                 s.add(a)
             for c in sub:
@@ -100,7 +106,8 @@ def check(axioms, pc, goal, want_model=True, timeout_ms=None):
             if s.check() == z3.unsat:
                 return "discharged", None, time.time() - t0, "z3-%s(relevant %d/%d)" % (z3.get_version_string(), len(sub), len(pc))
     s = z3.Solver()
-    s.set("timeout", timeout_ms or Z3_TIMEOUT_MS)
+    s.set("rlimit", (timeout_ms or Z3_TIMEOUT_MS) * RLIMIT_PER_MS)
+    s.set("timeout", (timeout_ms or Z3_TIMEOUT_MS) * WALL_FACTOR)
     for a in axioms:
         s.add(a)
     for c in pc:
